@@ -292,8 +292,27 @@ func (p *Path) Decided(key string) (bool, bool) {
 func (p *Path) Calls(callee string) []*Event {
 	var out []*Event
 	for _, e := range p.Events {
+		// c.writeError(ctx, code, err): the context of the failing read comes first (F34); the rules read (code, err) as before and
+		// find the context in Val
+		if callee == "Conn.writeError" && e.Kind == "call" && e.Callee == callee && len(e.Args) == 4 {
+			ne := *e
+			ne.Args = []AV{e.Args[0], e.Args[2], e.Args[3]}
+			ne.Val = e.Args[1]
+			out = append(out, &ne)
+			continue
+		}
 		if e.Kind == "call" && e.Callee == callee {
 			out = append(out, e)
+		}
+		// the inlined spelling of the same: c.writeCloseCtx(ctx, code, err.Error())
+		if callee == "Conn.writeError" && e.Kind == "call" && e.Callee == "Conn.writeCloseCtx" && len(e.Args) == 4 {
+			if x, ok := stripConvAll(e.Args[3]).(*Expr); ok && x.Op == "call" && strings.HasPrefix(x.Name, "invoke error.Error@") && len(x.Args) >= 1 {
+				ne := *e
+				ne.Callee = "Conn.writeError"
+				ne.Args = []AV{e.Args[0], e.Args[2], x.Args[0]}
+				ne.Val = e.Args[1]
+				out = append(out, &ne)
+			}
 		}
 		// c.writeCloseCtx(ctx, code, reason) is writeClose bounded by the caller's context: it counts as writeClose(code, reason);
 		// the context argument is kept in Val
@@ -883,6 +902,14 @@ func (it *interp) neverNil(st *state, subj AV) bool {
 		return false
 	}
 	switch e.Op {
+	case "lookup":
+		// an element that was found (comma-ok true on this path) in a map into which only fresh objects are stored
+		if v, ok := st.decmap["lookupok:"+e.Name]; ok && v && len(e.Args) > 0 {
+			if m, ok := stripConvAll(e.Args[0]).(*Expr); ok && (m.Op == "load" || m.Op == "field") {
+				return it.prog.mapElemNeverNil(m.Name)
+			}
+		}
+		return false
 	case "load", "field":
 		ctors, ok := it.prog.neverNilFields()[e.Name]
 		if !ok {
